@@ -66,7 +66,12 @@ func drawC08Script(t *rapid.T) c08Script {
 	var dur time.Duration
 	for dur < 3300*time.Millisecond || len(s.segs) < 2 {
 		g := time.Duration(rapid.SampledFrom([]int{0, 0, 200, 600, 1100, 2500}).Draw(t, "gapms")) * time.Millisecond
-		s.segs = append(s.segs, c08Seg{n: rapid.IntRange(1, 300).Draw(t, "n"), gap: g})
+		n := rapid.IntRange(1, 300).Draw(t, "n")
+		if rapid.IntRange(0, 4).Draw(t, "fullBlocks") == 2 {
+			// bursts that fill the copy buffer exactly (every read returns a full 8192-byte block)
+			n = 8192 * rapid.IntRange(1, 3).Draw(t, "blocks")
+		}
+		s.segs = append(s.segs, c08Seg{n: n, gap: g})
 		dur += g
 		if len(s.segs) > 12 {
 			break
